@@ -527,7 +527,7 @@ pub fn run_worker<P: Property>(args: WorkerArgs) {
                     continue;
                 }
                 let Ok(text) = std::fs::read_to_string(&f) else { continue };
-                let Ok(v) = serde_json::from_str::<serde_json::Value>(&text) else {
+                let Ok(v) = from_slice_deep::<serde_json::Value>(text.as_bytes()) else {
                     st.rep.harness_errors.push(format!("unreadable replay {}", f.display()));
                     continue;
                 };
@@ -768,10 +768,20 @@ fn concurrent_phase<P: Property>(pool: &[P::Spec], env: &Env) -> Vec<(usize, Res
     all
 }
 
+/// Parse JSON without serde_json's nesting limit of 128 (specs may hold JSON values nested 120 levels deep, each
+/// level costing two levels in the spec's own encoding).
+pub fn from_slice_deep<T: DeserializeOwned>(bytes: &[u8]) -> Result<T, String> {
+    let mut de = serde_json::Deserializer::from_slice(bytes);
+    de.disable_recursion_limit();
+    let v = T::deserialize(&mut de).map_err(|e| e.to_string())?;
+    de.end().map_err(|e| e.to_string())?;
+    Ok(v)
+}
+
 /// Replay one spec file in strict mode. Returns failures.
 pub fn replay_one<P: Property>(path: &std::path::Path, env: &mut Env) -> Result<Vec<Failure>, String> {
     let text = std::fs::read_to_string(path).map_err(|e| e.to_string())?;
-    let v: serde_json::Value = serde_json::from_str(&text).map_err(|e| e.to_string())?;
+    let v: serde_json::Value = from_slice_deep(text.as_bytes())?;
     let specv = v.get("spec").cloned().unwrap_or(v);
     let spec: P::Spec = serde_json::from_value(specv).map_err(|e| format!("spec decode: {}", e))?;
     env.strict = true;
